@@ -279,9 +279,12 @@ def id_filters(ck, rule_filter, rule_order):
             if not ok:
                 raise AnalysisError(f"{where(m, pa.node)}: {name} does not delegate to the private reader")
             a = dict(v[3])
+            filep = m.call_params()[0].name
             idp = m.call_params()[1].name if len(m.call_params()) > 1 else None
-            ids = a.get("moleculeIds")
-            good = ids is not None and idp is not None and any(x == V(idp) for x in T.subterms(ids)) and a.get("file") == V("file")
+            vals = list(a.values())
+            file_ok = any(x == V(filep) for x in vals)
+            ids = [x for x in vals if x != V(filep)]
+            good = file_ok and idp is not None and len(ids) == 1 and any(x == V(idp) for x in T.subterms(ids[0]))
             ck.judge(good, rule_filter, f"CmapReader.{name}:delegation", where(m, pa.node),
                      "file and id filter are handed on to the reader", found=T.show(v)[:160])
     # inside the reader
